@@ -239,6 +239,8 @@ class Env:
         self.A1 = [g.uniform(-1, 1, (1, 4, 2)), g.uniform(-1, 1, (2, 1, 2)), g.uniform(-1, 1, (2, 3, 1))]
         self.I1 = self.I.copy()
         self.I1[:, 1] = 0
+        self.Ybig = [self.Yp[0].copy(), self.Yp[1] * 2. ** 200, self.Yp[2].copy()]
+        self.Ytiny = [G * 2. ** -150 for G in self.Yp]
         self.Isp = np.array([[0, 0, 0], [1, 1, 1], [2, 2, 2], [3, 3, 3], [0, 1, 2], [1, 2, 3]])
         self.ysp = np.arange(6.) + 1
 
@@ -252,8 +254,12 @@ class Env:
         return X[:, 0] * X[:, 1] + 1.0
 
 
+_SHARE = [False]
+
+
 def cp(x):
-    return copy.deepcopy(x)
+    """fresh copy of an input (default); in shared mode the recipes get the SAME argument objects on every call"""
+    return x if _SHARE[0] else copy.deepcopy(x)
 
 
 def seeded_recipes(E):
@@ -292,7 +298,141 @@ def seeded_recipes(E):
         return [A.cores(2, 1e-3), A.sample(), A.sample()]
     R['ANOVA'] = [('cores + sample', anova_cls)]
     R['_rand'] = [('generator state', lambda s: tn._rand(s))]
+    # exact power-of-two rescalings (one core / all values): the same pipeline must stay world independent
+    R['sample'].append(('one core * 2^200', lambda s: tn.sample(cp(E.Ybig), 6, seed=s)))
+    R['sample'].append(('all cores * 2^-150', lambda s: tn.sample(cp(E.Ytiny), 6, seed=s)))
+    R['sample_square'].append(('one core * 2^200, unique', lambda s: tn.sample_square(cp(E.Ybig), 5, seed=s)))
+    R['sample_square'].append(('all cores * 2^-150, not unique', lambda s: tn.sample_square(cp(E.Ytiny), 7, unique=False, seed=s)))
+    R['rand'].append(('a, b = -+2^-1000', lambda s: tn.rand(cp(E.n), 2, -2. ** -1000, 2. ** -1000, seed=s)))
+    R['rand_norm'].append(('m = 0, s = 2^-600', lambda s: tn.rand_norm(cp(E.n), 2, 0., 2. ** -600, seed=s)))
+    R['rand_norm'].append(('m = s = 2^500', lambda s: tn.rand_norm(cp(E.n), 2, 2. ** 500, 2. ** 500, seed=s)))
+    R['rand_stab'].append(('noise = 2^-1000', lambda s: tn.rand_stab(cp(E.n), 2, 2. ** -1000, seed=s)))
+    R['core_qr_rand'].append(('core * 2^300', lambda s: tn.core_qr_rand(cp(E.G) * 2. ** 300, 2, seed=s)))
     return R
+
+
+def argform_recipes(E):
+    """name -> (canonical call(seed), [(form label, call(seed))]): other documented forms of the NON-seed arguments (list /
+    tuple / ndarray of int64 / int32, NumPy integer scalars, flags as 1 / np.bool_, F-ordered and non-contiguous cores)
+    must give the canonical answer bit for bit, or raise -- never another answer silently"""
+    tn = E.tn
+    n = list(E.n)
+
+    def forms_n():
+        return [('n tuple', tuple(n)), ('n int64 array', np.array(n, dtype=np.int64)), ('n int32 array', np.array(n, dtype=np.int32)),
+                ('n list of np.int64', [np.int64(k) for k in n])]
+
+    def fo(Y):
+        return [np.asfortranarray(G) for G in Y]
+
+    def nc(Y):
+        out = []
+        for G in Y:
+            B = np.zeros((G.shape[0], 2 * G.shape[1], G.shape[2]))
+            B[:, ::2, :] = G
+            out.append(B[:, ::2, :])
+        return out
+    R = {}
+    R['rand'] = (lambda s: tn.rand(n, 2, seed=s),
+                 [(l, (lambda s, v=v: tn.rand(v, 2, seed=s))) for l, v in forms_n()] +
+                 [('r np.int64', lambda s: tn.rand(n, np.int64(2), seed=s)), ('r list', lambda s: tn.rand(n, [1, 2, 2, 1], seed=s)),
+                  ('r int32 array', lambda s: tn.rand(n, np.array([1, 2, 2, 1], dtype=np.int32), seed=s)),
+                  ('a, b as np.float64', lambda s: tn.rand(n, 2, np.float64(-1.), np.float64(1.), seed=s)),
+                  ('a, b as int', lambda s: tn.rand(n, 2, -1, 1, seed=s))])
+    R['rand_norm'] = (lambda s: tn.rand_norm(n, 2, seed=s),
+                      [(l, (lambda s, v=v: tn.rand_norm(v, 2, seed=s))) for l, v in forms_n()] +
+                      [('m, s as int', lambda s: tn.rand_norm(n, 2, 0, 1, seed=s))])
+    R['rand_stab'] = (lambda s: tn.rand_stab(n, 2, seed=s), [(l, (lambda s, v=v: tn.rand_stab(v, 2, seed=s))) for l, v in forms_n()])
+    R['sample_lhs'] = (lambda s: tn.sample_lhs(n, 7, seed=s),
+                       [(l, (lambda s, v=v: tn.sample_lhs(v, 7, seed=s))) for l, v in forms_n()] +
+                       [('m np.int64', lambda s: tn.sample_lhs(n, np.int64(7), seed=s)), ('m float 7.0', lambda s: tn.sample_lhs(n, 7.0, seed=s))])
+    R['sample_rand'] = (lambda s: tn.sample_rand(n, 7, seed=s),
+                        [(l, (lambda s, v=v: tn.sample_rand(v, 7, seed=s))) for l, v in forms_n()] +
+                        [('m np.int32', lambda s: tn.sample_rand(n, np.int32(7), seed=s))])
+    R['sample_tt'] = (lambda s: tn.sample_tt(n, 2, seed=s),
+                      [(l, (lambda s, v=v: tn.sample_tt(v, 2, seed=s))) for l, v in forms_n()] +
+                      [('r np.int64', lambda s: tn.sample_tt(n, np.int64(2), seed=s))])
+    R['sample_rand_poi'] = (lambda s: tn.sample_rand_poi([-1., 0., 2.], [1., 3., 5.], 5, seed=s),
+                            [('a, b arrays', lambda s: tn.sample_rand_poi(np.array([-1., 0., 2.]), np.array([1., 3., 5.]), 5, seed=s)),
+                             ('a, b tuples of int', lambda s: tn.sample_rand_poi((-1, 0, 2), (1, 3, 5), 5, seed=s)),
+                             ('m np.int64', lambda s: tn.sample_rand_poi([-1., 0., 2.], [1., 3., 5.], np.int64(5), seed=s))])
+    R['sample'] = (lambda s: tn.sample(cp(E.Yp), 6, seed=s),
+                   [('F-ordered cores', lambda s: tn.sample(fo(E.Yp), 6, seed=s)), ('non-contiguous cores', lambda s: tn.sample(nc(E.Yp), 6, seed=s)),
+                    ('m np.int64', lambda s: tn.sample(cp(E.Yp), np.int64(6), seed=s)), ('cores in a tuple', lambda s: tn.sample(tuple(cp(E.Yp)), 6, seed=s))])
+    R['sample_square'] = (lambda s: tn.sample_square(cp(E.Yp), 5, seed=s),
+                          [('F-ordered cores', lambda s: tn.sample_square(fo(E.Yp), 5, seed=s)),
+                           ('non-contiguous cores', lambda s: tn.sample_square(nc(E.Yp), 5, seed=s)),
+                           ('unique=1', lambda s: tn.sample_square(cp(E.Yp), 5, 1, seed=s)),
+                           ('unique=np.bool_(True)', lambda s: tn.sample_square(cp(E.Yp), 5, np.bool_(True), seed=s)),
+                           ('unique passed explicitly', lambda s: tn.sample_square(cp(E.Yp), 5, True, seed=s)),
+                           ('m np.int64', lambda s: tn.sample_square(cp(E.Yp), np.int64(5), seed=s))])
+    R['sample_func'] = (lambda s: tn.sample_func(cp(E.A), seed=s),
+                        [('F-ordered cores', lambda s: tn.sample_func(fo(E.A), seed=s)), ('non-contiguous cores', lambda s: tn.sample_func(nc(E.A), seed=s)),
+                         ('cores_are_prepared=0', lambda s: tn.sample_func(cp(E.A), s, 0))])
+    R['core_qr_rand'] = (lambda s: tn.core_qr_rand(cp(E.G), 2, seed=s),
+                         [('F-ordered core', lambda s: tn.core_qr_rand(np.asfortranarray(E.G), 2, seed=s)), ('m np.int64', lambda s: tn.core_qr_rand(cp(E.G), np.int64(2), seed=s)),
+                          ('ltr=1', lambda s: tn.core_qr_rand(cp(E.G), 2, 1, seed=s)), ('ltr=np.bool_(True)', lambda s: tn.core_qr_rand(cp(E.G), 2, np.bool_(True), seed=s))])
+    R['anova'] = (lambda s: tn.anova(cp(E.I), cp(E.y), 2, 1, 1e-3, seed=s),
+                  [('I int32', lambda s: tn.anova(E.I.astype(np.int32), cp(E.y), 2, 1, 1e-3, seed=s)),
+                   ('I, y lists', lambda s: tn.anova(E.I.tolist(), E.y.tolist(), 2, 1, 1e-3, seed=s)),
+                   ('I F-ordered', lambda s: tn.anova(np.asfortranarray(E.I), cp(E.y), 2, 1, 1e-3, seed=s)),
+                   ('r, order np.int64', lambda s: tn.anova(cp(E.I), cp(E.y), np.int64(2), np.int64(1), 1e-3, seed=s))])
+    return R
+
+
+def check_argforms(E, seed, fails, stats, only=None):
+    for name, (canon_call, forms) in argform_recipes(E).items():
+        if only and name not in only and 'argform' not in only:
+            continue
+        np.random.seed(1)
+        ref, _ = run_call(lambda: canon_call(seed))
+        stats['evals'] += 1
+        for i, (label, call) in enumerate(forms):
+            np.random.seed(2 + i)
+            r, touched = run_call(lambda: call(seed))
+            stats['evals'] += 1
+            stats['keys'].append(('argform', name, label))
+            raised = isinstance(r, tuple) and bool(r) and r[0] == 'exc'
+            if raised and r != ref:
+                stats.setdefault('argform_raises', []).append((name, label, r[1]))
+            if touched or (r != ref and not raised):
+                fails.append(dict(what=f'{name}: argument form "{label}" with the same integer seed ' +
+                                       ('changes the global generator state' if touched else 'silently gives another result than the canonical form'),
+                                  input=dict(recipe=['argform', name, label], seed=seed, mode='argument-form'), got=short(r), expected=short(ref)))
+
+
+def check_shared_args(E, seeds, fails, stats, only=None):
+    """every recipe called three times on the SAME argument objects (no copies), interleaved with the other recipes that use
+    them: every call must give the reference result (computed on saved copies) and the argument objects must be bit-identical
+    afterwards"""
+    attrs = [a for a in vars(E) if isinstance(getattr(E, a), (list, np.ndarray))]
+    ths = [(k, t) for k, t in all_thunks(E, seeds, degenerate=False) if not only or 'shared' in only or k[0] in only]
+    refs = {}
+    for key, t in ths:
+        np.random.seed(4)
+        refs[key] = run_call(t)[0]
+    before = {a: canon(getattr(E, a)) for a in attrs}
+    _SHARE[0] = True
+    try:
+        for rnd in range(3):
+            for key, t in (ths if rnd != 1 else ths[::-1]):
+                np.random.seed(10 + rnd)
+                r = run_call(t)[0]
+                stats['evals'] += 1
+                if r != refs[key]:
+                    fails.append(dict(what=f'{key[0]}: call number {rnd + 1} on the SAME argument objects (interleaved with the other '
+                                           f'routines that use them) differs from the result on fresh copies',
+                                      input=dict(recipe=['shared', key[0], key[1]], seed=key[2], round=rnd, mode='shared-arguments'),
+                                      got=short(r), expected=short(refs[key])))
+                    refs[key] = r
+                bad = [a for a in attrs if canon(getattr(E, a)) != before[a]]
+                if bad:
+                    fails.append(dict(what=f'{key[0]}: the argument objects {bad} were modified by the call (later calls on the same objects '
+                                           f'see other data)', input=dict(recipe=['shared', key[0], key[1]], seed=key[2], mode='shared-arguments')))
+                    for a in bad:
+                        before[a] = canon(getattr(E, a))
+    finally:
+        _SHARE[0] = False
 
 
 def unseeded_recipes(E):
@@ -511,7 +651,7 @@ def raising_block(E):
             lambda: tn.als(cp(E.I), cp(E.y), cp(E.Y0), nswp=1, r=2, cb=cb_boom),
             lambda: tn.als_func(cp(E.X), cp(E.yx)[:-2], cp(E.Y0), nswp=1),
             lambda: tn.sample_lhs([4, 5, 3], 2, seed=4),                               # m < k: choice(.., negative) raises
-            lambda: tn.sample_square(cp(E.Yp), 10 ** 6, True, 3, 1, 0),                # gives up after max_rep
+            lambda: tn.sample_square(cp(E.Yp), 200, True, 3, 1, 0),                # gives up after max_rep
             lambda: tn.sample(cp(E.Yp), 3, seed='abc'),                                # invalid seed type
             lambda: tn.rand([4, 5, 3], [1, 2, 1], seed=1),                             # wrong number of ranks
             lambda: tn.optima_func_tt_beam([np.ones((1, 3, 2)), np.ones((3, 3, 1))], 3, ret_all=True),
@@ -1045,6 +1185,18 @@ def run_dynamic(tn, rng, deep, only=None):
             fails.append(dict(what=f'{name}: harness raised {e!r}', input=dict(recipe=[name])))
     if not only or 'dict' in only:
         check_dicts(E, fails, stats)
+    if not only or 'argform' in only:
+        try:
+            check_argforms(E, seeds[0] % 1000, fails, stats)
+        except Exception as e:
+            traceback.print_exc()
+            fails.append(dict(what=f'argument forms: harness raised {e!r}', input=dict(recipe=['argform'])))
+    if not only or 'shared' in only:
+        try:
+            check_shared_args(E, seeds[-1:], fails, stats)
+        except Exception as e:
+            traceback.print_exc()
+            fails.append(dict(what=f'shared arguments: harness raised {e!r}', input=dict(recipe=['shared'])))
     if not only or 'history' in only:
         try:
             history_probe(rng.randrange(2 ** 31), seeds[-1:], fails, stats)
@@ -1104,6 +1256,8 @@ def correspondence(R, ctx):
         ex = sorted(stats['numpy_int_seed_raises'])
         R.notes.append(f"NumPy-integer seeds raise instead of being used as integers ({len(ex)} recipe/form pairs, e.g. {ex[0]}): "
                        f"tolerated by the check (an exception is not a silently different answer), reported to the lead")
+    if stats.get('argform_raises'):
+        R.notes.append(f"argument forms that raise instead of giving the canonical answer (tolerated): {stats['argform_raises'][:12]}")
     R.notes.append(f"calls that raised in the raising-calls block of the history probe: {stats.get('raising_calls')}")
     if stats['uncovered']:
         R.notes.append(f"seeded exported functions without a dynamic recipe (static proof still covers them): {stats['uncovered']}")
@@ -1117,7 +1271,7 @@ def search(R, ctx, deep, hints):
     if deep and not fails:
         # the obligation or the correspondence broke: look harder (more worlds, more seeds) -- first at the flagged functions
         flagged = {h['input'].get('function', '').split('.')[-1] for h in hints if h.get('static')}
-        flagged = {('ANOVA' if 'ANOVA' in f else f) for f in flagged} | {'dict', 'import', 'poison', 'history'}
+        flagged = {('ANOVA' if 'ANOVA' in f else f) for f in flagged} | {'dict', 'import', 'poison', 'history', 'argform', 'shared'}
         for only in ([sorted(flagged)] if flagged else []) + [None]:
             f2, st = run_dynamic(tn, ctx['rng'], deep=True, only=only)
             n += st['evals']
